@@ -336,9 +336,46 @@ func makePool(f *fnInfo, thorough bool, extraKeys []string) *fnPool {
 	return &fnPool{items: items, nbase: len(base), optVals: append(ov, ev...)}
 }
 
+// freshOptVals: the option objects as new Go values for every evaluation.
+func (p *fnPool) freshOptVals() []any {
+	out := make([]any, len(p.optVals))
+	for i, v := range p.optVals {
+		out[i] = deepCopy(v)
+	}
+	return out
+}
+
+func deepCopy(v any) any {
+	switch x := v.(type) {
+	case map[string]any:
+		m := make(map[string]any, len(x))
+		for k, e := range x {
+			m[k] = deepCopy(e)
+		}
+		return m
+	case []any:
+		a := make([]any, len(x))
+		for i, e := range x {
+			a[i] = deepCopy(e)
+		}
+		return a
+	}
+	return v
+}
+
+// freshFlags: which pool entries are JSON containers (copied per use).
+func (p *fnPool) freshFlags() []any {
+	out := make([]any, len(p.items))
+	for i, it := range p.items {
+		out[i] = it.Type == "array" || it.Type == "object" || strings.HasPrefix(it.Type, "opt:")
+	}
+	return out
+}
+
 const outLimit = 4
 
 var profile = os.Getenv("VERIF_C13_PROFILE") != ""
+var debugCases = os.Getenv("VERIF_C13_DEBUG") != ""
 
 // cliState is the interpreter's global state (options stack etc.) exactly as the
 // command line entry point leaves it for `fq -n EXPR`: obtained by running the real
@@ -403,7 +440,12 @@ func fixNumbers(v any) any {
 // case so that a case means the same thing alone as in the batch.
 func driver(f *fnInfo, thorough bool) string {
 	var sb strings.Builder
-	sb.WriteString(". as {g: $g0, o: $o, cs: $cs} | _global_state($g0) as $_ | ")
+	// _c13_fresh: deep copy of a JSON container. fq functions may modify arrays and
+	// objects they are given in place (gojqx.NormalizeFn does), and both program
+	// constants and evaluation inputs are shared Go values, so without the copy one
+	// case could change the pool for the following ones.
+	sb.WriteString("def _c13_fresh: if type == \"array\" then [.[] | _c13_fresh] elif type == \"object\" then (to_entries | map({(.key): (.value | _c13_fresh)}) | add // {}) else . end; ")
+	sb.WriteString(". as {g: $g0, o: $o, fr: $fr, cs: $cs} | _global_state($g0) as $_ | ")
 	sb.WriteString(poolPrelude())
 	sb.WriteString(" | ([")
 	for i, it := range basePool(thorough) {
@@ -412,11 +454,15 @@ func driver(f *fnInfo, thorough bool) string {
 		}
 		sb.WriteString(it.Expr)
 	}
-	sb.WriteString("] + $o) as $p | $cs[] as $c | _global_state($g0) as $_ | $p[$c[0]] | [limit(")
+	sb.WriteString("] + $o) as $p | $cs[] as $c | _global_state($g0) as $_ | ($p[$c[0]] | if $fr[$c[0]] then _c13_fresh end) | [limit(")
 	sb.WriteString(strconv.Itoa(outLimit))
 	sb.WriteString("; try (")
-	sb.WriteString(callExpr(f, func(i int) string { return fmt.Sprintf("$p[$c[%d]]", i+1) }))
-	sb.WriteString(" | type) catch \"E\")]")
+	sb.WriteString(callExpr(f, func(i int) string { return fmt.Sprintf("($p[$c[%d]] | if $fr[$c[%d]] then _c13_fresh end)", i+1, i+1) }))
+	if debugCases {
+		sb.WriteString(" | type) catch (\"E\", (tostring | .[0:120])))]")
+	} else {
+		sb.WriteString(" | type) catch \"E\")]")
+	}
 	return sb.String()
 }
 
@@ -572,7 +618,7 @@ func (w *worker) runChunk(c *chunk) {
 			cs = append(cs, row)
 		}
 		ctx, cancel := context.WithCancel(context.Background())
-		input := map[string]any{"g": cliState(), "o": c.pool.optVals, "cs": cs}
+		input := map[string]any{"g": cliState(), "o": c.pool.freshOptVals(), "fr": c.pool.freshFlags(), "cs": cs}
 		w.evalsOnSession++
 		var it gojq.Iter
 		pv, stack := core.Protect(func() { it, err = s.I.Eval(ctx, input, c.prog, interp.EvalOpts{}) })
@@ -629,6 +675,10 @@ func (w *worker) runChunk(c *chunk) {
 				}
 				broke = true
 			} else {
+				if debugCases {
+					b, _ := json.Marshal(v)
+					fmt.Fprintf(os.Stderr, "CASE %s => %s\n", desc, b)
+				}
 				w.onResult(c, tuples[k], v)
 				if reason != "" {
 					// the watchdog cancelled the context while the case was finishing;
